@@ -598,8 +598,8 @@ P["C20"] = {"property": "C20", "level": "proof", "units": [
       loops={"tool_main": [
         {"loop_id": 0, "vars": ["alg"], "assigns": "alg", "invariants": ["(unsigned)alg <= JWT_ALG_INVAL"], "decreases": "(int)JWT_ALG_INVAL - (int)alg"},
         {"loop_id": 1, "vars": ["oc", "alg", "quiet", "verbose", "key_file"],
-         "assigns": "oc, alg, quiet, verbose, key_file, pipe_cmd, optind, optarg, g_getopt_calls, g_exit_status8",
-         "invariants": ["g_tok_calls == 0 && g_tok_bad == 0"], "globals": {"pipe_cmd": "pipe_cmd", "optind": "optind", "optarg": "optarg", "g_getopt_calls": "g_getopt_calls", "g_tok_calls": "g_tok_calls", "g_tok_bad": "g_tok_bad", "g_tok_last": "g_tok_last", "g_exit_status8": "g_exit_status8"}},
+         "assigns": "oc, alg, quiet, verbose, key_file, pipe_cmd, optind, optarg, g_getopt_calls, g_exit_status8, g_user_alg",
+         "invariants": ["g_tok_calls == 0 && g_tok_bad == 0", "alg == g_user_alg"], "globals": {"g_user_alg": "g_user_alg", "pipe_cmd": "pipe_cmd", "optind": "optind", "optarg": "optarg", "g_getopt_calls": "g_getopt_calls", "g_tok_calls": "g_tok_calls", "g_tok_bad": "g_tok_bad", "g_tok_last": "g_tok_last", "g_exit_status8": "g_exit_status8"}},
         {"loop_id": 2, "vars": ["err", "token"],
          "assigns": "err, __CPROVER_object_whole(token), g_tok_calls, g_tok_bad, g_tok_last",
          "invariants": ["0 <= err && err <= 255", "(err == 0) == (g_tok_bad == 0)", "g_tok_bad <= g_tok_calls"], "globals": {"pipe_cmd": "pipe_cmd", "optind": "optind", "optarg": "optarg", "g_getopt_calls": "g_getopt_calls", "g_tok_calls": "g_tok_calls", "g_tok_bad": "g_tok_bad", "g_tok_last": "g_tok_last", "g_exit_status8": "g_exit_status8"}},
@@ -607,7 +607,7 @@ P["C20"] = {"property": "C20", "level": "proof", "units": [
          "assigns": "err, oc, g_tok_calls, g_tok_bad, g_tok_last",
          "invariants": ["0 <= oc && oc <= argc", "0 <= err && err <= 255", "(err == 0) == (g_tok_bad == 0)", "g_tok_bad <= g_tok_calls", "(oc > 0) == (g_tok_calls > 0)"], "decreases": "argc - oc", "globals": {"pipe_cmd": "pipe_cmd", "optind": "optind", "optarg": "optarg", "g_getopt_calls": "g_getopt_calls", "g_tok_calls": "g_tok_calls", "g_tok_bad": "g_tok_bad", "g_tok_last": "g_tok_last", "g_exit_status8": "g_exit_status8"}},
       ]},
-      expect=["exit\\.assertion\\.1", "exit\\.assertion\\.2", "getopt_long\\.assertion\\.2", "getopt_long\\.assertion\\.3", "find_short\\.assertion\\.1", "tool_main\\.loop_invariant_step"], timeout=600,
+      expect=["exit\\.assertion\\.1", "exit\\.assertion\\.2", "getopt_long\\.assertion\\.2", "getopt_long\\.assertion\\.3", "find_short\\.assertion\\.1", "tool_main\\.loop_invariant_step", "jwt_checker_setkey\\.assertion\\.1"], timeout=600,
       replay={"driver": "replay/r_C20_verify.c"}),
     U("C20.bounded.jwt_verify.stdin", "main (tools/jwt-verify.c) with process_one: content of the tokens read from standard input", "tools/jwt-verify.c", "contracts/tools_c.h",
       "int argc; char **argv; tool_main(argc, argv);", "tool_main/contract_C20_jwt_verify_main_stdin",
@@ -860,6 +860,7 @@ share("C18", ["TOP.jwt_checker_verify", "TOP.jwt_builder_generate", "C01.all.jwt
 share("C10", ["C15.jwt_claim_set", "C15.jwt_header_set", "C15.__setter"])
 share("C17", ["C15.jwt_claim_set", "C15.jwt_header_set", "C10.jwt_head_setup", "C10.jwt_encode_str", "C17.jwt_malloc", "C17.__jwt_freemem", "C17.jwt_set_alloc"])
 share("C04", ["C15.jwt_claim_get", "C06.jwt_base64uri_decode_to_json"])
+share("C02", ["C20.jwt_verify.main"])
 # what a callback can do to the token object is what these wrappers can do: they reach the JSON documents only (C19)
 share("C19", ["C15.jwt_header_set", "C15.jwt_header_del", "C15.jwt_claim_set", "C15.jwt_claim_del", "C15.jwt_header_get", "C15.jwt_claim_get"])
 share("C14", ["C15.__getter", "C15.__setter", "C15.__setter_json", "C15.__deleter"])
